@@ -63,9 +63,10 @@ def main():
                 cands = [os.path.dirname(f) for f in files]
                 for tok in txt.replace(',', ' ').split():
                     tok = tok.strip('`\'"()')
-                    if '/' in tok and os.path.isdir(os.path.join(wt, tok.lstrip('./'))):
+                    if '/' in tok and tok.strip('./') and os.path.isdir(os.path.join(wt, tok.lstrip('./'))):
                         cands.insert(0, tok.lstrip('./'))
-                pk = open(demo_test).read().split('package ', 1)[1].split()[0]
+                import re
+                pk = re.search(r'^package\s+(\w+)', open(demo_test).read(), re.M).group(1)
                 pkgdir = None
                 for c in cands:
                     base = os.path.basename(c.rstrip('/'))
